@@ -5,7 +5,7 @@ from common import R, Rmat, cfl, fl, max_rel_err, ModelError
 
 from common import wiring_pre_build as pre_build  # noqa: E402,F401
 
-LEAN_MODULES = ["PyomaVerif.Props.C13", "PyomaVerif.Props.C13Parseval", "PyomaVerif.Mutants.C13", "PyomaVerif.Props.WiringRun"]
+LEAN_MODULES = ["PyomaVerif.Props.C13", "PyomaVerif.Props.C13Parseval", "PyomaVerif.Props.C13Phase", "PyomaVerif.Mutants.C13", "PyomaVerif.Props.WiringRun"]
 THEOREMS = [
     # call-site wiring of the class layer, regenerated from /repo on every run (translate_wiring.py)
     "PV.WiringRun.C13_run_spectral",
@@ -58,6 +58,38 @@ THEOREMS = [
     "PV.C13.Mutants.opp_conj_gives_conjugate_phase",
     "PV.C13.Mutants.swap_violates_pairing",
     "PV.C13.Mutants.short_grid_violates",
+    # Props/C13Phase.lean: phase convention of the 'cor' chain, gain-and-delay under the Hann window, mean removal
+    # immaterial on lines >= 2, twiddle side conditions for every n
+    "PV.C13.csd_gain_delay_padded",
+    "PV.C13.irfft_gain_delay",
+    "PV.C13.corFromPxy_gain_delay",
+    "PV.C13.sd_cor_gain_delay",
+    "PV.C13.sd_cor_gain_delay_flat",
+    "PV.C13.welchX_delay_window",
+    "PV.C13.sd_per_gain_delay_kernel",
+    "PV.C13.sd_per_gain_delay",
+    "PV.C13.sd_per_welch_no_detrend",
+    "PV.C13.sd_per_welch_no_detrend_roots_of_unity",
+    "PV.C13.twR_primitive",
+    "PV.C13.sd_sinusoid_roots_of_unity",
+    "PV.C13.sd_sinusoid_ratio_roots_of_unity",
+    "PV.C13.cor_hyps_roots_of_unity",
+    "PV.C13.tw4_half12",
+    "PV.C13.tw4_period12",
+    "PV.C13.exC_delay",
+    "PV.C13.exC_tail",
+    "PV.C13.exY_delay",
+    "PV.C13.exP_delay",
+    "PV.C13.exP_adj",
+    "PV.C13.Mutants.cor_conj_violates_gain_delay",
+    "PV.C13.Mutants.cor_conj_violates_gain_delay_flat",
+    "PV.C13.Mutants.cor_conj_gives_conjugate_phase",
+    "PV.C13.Mutants.cor_swap_violates_gain_delay",
+    "PV.C13.Mutants.cor_swap_violates_gain_delay_flat",
+    "PV.C13.Mutants.cor_swap_gives_conjugate_phase",
+    "PV.C13.Mutants.cor_rev_violates_gain_delay",
+    "PV.C13.Mutants.opp_conj_violates_hann_gain_delay",
+    "PV.C13.Mutants.raw_differs_below_line_2",
 ]
 RULE = (
     "correspondence: fdd.SD_est ('per' and 'cor') vs the Lean model Spectral.sdEstPer/sdEstCor executed with Float "
